@@ -106,12 +106,15 @@ _ED_COMMON = [
     "not emit_default_doc or result[0] == line",
     "not (emit_default_doc == False and typ is None and default_search_announce is None and rstrip_default == True) or result[0] == ed_doc(line)",
 ]
+# E1 with its witness position existentially quantified: a default is returned only if an announcement phrase occurs somewhere
+_ED_ANNOUNCED = ["default_search_announce is not None or exists(lambda g: any(g + len(t) <= len(line) and casefold(line[g:g + len(t)]) == casefold(t) "
+                 "for t in %r), 0, len(line) + 1)" % (TOKENS,)]
 extract_default.outcomes = [
     Outcome("no-default", ("tuple", ["str", None]), ["result[0] == line"] + _ED_COMMON),
-    Outcome("str", ("tuple", ["str", "str"]), _ED_COMMON),
-    Outcome("int", ("tuple", ["str", "int"]), _ED_COMMON),
-    Outcome("bool", ("tuple", ["str", "bool"]), _ED_COMMON),
-    Outcome("float", ("tuple", ["str", ("obj", "float")]), _ED_COMMON),
+    Outcome("str", ("tuple", ["str", "str"]), _ED_COMMON + _ED_ANNOUNCED),
+    Outcome("int", ("tuple", ["str", "int"]), _ED_COMMON + _ED_ANNOUNCED),
+    Outcome("bool", ("tuple", ["str", "bool"]), _ED_COMMON + _ED_ANNOUNCED),
+    Outcome("float", ("tuple", ["str", ("obj", "float")]), _ED_COMMON + _ED_ANNOUNCED),
 ]
 
 needs_quoting = Contract(
